@@ -190,6 +190,14 @@ def explore(run, pre, max_paths=20000, extra_axioms=None):
                 status = 'returned'
             except StopPath:
                 res, status = None, 'stopped'
+            except (Undecided, CheckerError):
+                raise
+            except Exception as e:
+                # the proxies could not carry the current code (or the code itself raises): an engine limit,
+                # decided by the bounded stand-in / native replay, never a verdict by itself
+                import traceback
+                tb = traceback.format_exc().strip().splitlines()
+                raise Undecided('proxy re-execution raised %s: %s [%s]' % (type(e).__name__, str(e)[:200], ' | '.join(l.strip() for l in tb[-4:])[:400]))
             finally:
                 CUR[0] = None
             work.extend(ctx.pending)
